@@ -6,3 +6,7 @@ claim("C05", "DESIGN.md 5/C05",
       "Lean 4 reference model of the session (guard stacks regenerated from the live decorators) with theorems about the model + exhaustive-to-a-bound/random differential run of every command against the real dispatcher under a simulated network + property oracle on the transcript",
       "The theorems are about the sequential reference model for all states and commands; that the code conforms to the model is established by enumeration up to the bound (all command pairs in three session contexts) and sampling beyond it - partial, and labelled so.",
       "Trusted: Lean kernel; the translator's decorator-stack recovery (cross-checked by the behavioural run); in-memory network instead of sockets; asyncio scheduling.")
+claim("C03", "DESIGN.md 5/C03",
+      "Lean 4: decision over the decorator stacks regenerated from the live source (login_required outermost on every protected verb) + theorems over the session model for all states/trees/commands (nothing served before login, re-USER drops the login, PASS authorises only with the password) + differential histories against the real dispatcher with a spying backend + independent authSpec oracle",
+      "guards_table is re-decided by the kernel against the current source on every run; the model theorems are unbounded; the tie model=code is exhaustive over login histories to a bound and sampled beyond.",
+      "Trusted: Lean kernel; translator (closure-cell walk of the bound methods), cross-checked by the behavioural run; MemoryUserManager only.")
